@@ -145,10 +145,10 @@ def idxOkB (sch : Schema) (s : Store) : Bool :=
         | none => true))) &&
   ((dedup s.seen).all fun key => match key with
     | .simple a v => (match s.idx a v with
-        | some o => !live o || (s.row o).val a == some v
+        | some o => decide (o < s.n) && (match sch.decl a with | some d => d.unique | none => false) && (!live o || (s.row o).val a == some v)
         | none => true)
     | .comp k vs => (match s.cidx k vs with
-        | some o => !live o || tuple ((sch.keyAttrs k).map (s.row o).val) == some vs
+        | some o => decide (o < s.n) && decide (k < sch.ckeys.length) && (!live o || tuple ((sch.keyAttrs k).map (s.row o).val) == some vs)
         | none => true)
     | .pk _ _ => true)
 
